@@ -614,6 +614,9 @@ def collision_expect(w, i, kind):
   ft = np.zeros(6)
   for g1 in G1:
     for g2 in G2:
+      if g1 != g2 and np.linalg.norm(np.array(d.geom_xpos[g1]) - np.array(d.geom_xpos[g2])) < 1e-6:
+        # coincident centres: class of the known finding C28:ccd-concentric (handled by its own probe)
+        return Result('none', level='isolation', note='concentric-geoms')
       td = pair_true_distance(w, g1, g2) if g1 != g2 else None
       src = 'closed'
       if td is None:
